@@ -27,7 +27,55 @@ def setup_symbolic(fresh=False):
         sched_model.install(m)
         mods[name] = m
     mods["tlexport.packet"].dpkt = dpkt_model.namespace()
+    _track_module_state(mods)
     return mods
+
+
+_STATE = []          # (module, name, kind, snapshot) of mutable module-level state of the code under test
+
+
+def _track_module_state(mods):
+    """Module-level containers of the code under test are program state: they are put back to their import-time content at the start of
+    every path (the explorer re-executes the scenario per path and relies on it being a function of its decisions), and dicts that
+    are empty at import time (caches, registries) get solver-decided lookups (SymKeyDict)."""
+    import types
+    from tlv.sx.symdict import SymKeyDict, SymDict
+    from tlv.harness import common
+    del _STATE[:]
+    for m in mods.values():
+        for name, val in list(vars(m).items()):
+            if name.startswith("__") or isinstance(val, (types.ModuleType, type, types.FunctionType, SymDict)):
+                if isinstance(val, types.FunctionType) and hasattr(val, "cache_clear"):
+                    _STATE.append((m, name, "lru", None))
+                continue
+            if hasattr(val, "cache_clear") and callable(val):
+                _STATE.append((m, name, "lru", None))
+            elif type(val) is dict and not val:
+                setattr(m, name, SymKeyDict())
+                _STATE.append((m, name, "symkeydict", None))
+            elif type(val) in (dict, list, set):
+                _STATE.append((m, name, type(val).__name__, type(val)(val)))
+    if reset_module_state not in common.PATH_RESET_HOOKS:
+        common.PATH_RESET_HOOKS.append(reset_module_state)
+
+
+def reset_module_state():
+    for m, name, kind, snap in _STATE:
+        cur = getattr(m, name, None)
+        if kind == "lru":
+            if hasattr(cur, "cache_clear"):
+                cur.cache_clear()
+        elif kind == "symkeydict":
+            if hasattr(cur, "clear"):
+                cur.clear()
+        elif kind == "list" and isinstance(cur, list):
+            cur[:] = snap
+        elif kind == "dict" and type(cur) is dict:
+            cur.clear()
+            cur.update(snap)
+        elif kind == "set" and isinstance(cur, set):
+            cur.clear()
+            cur.update(snap)
 
 
 ADDR = {
